@@ -412,5 +412,7 @@ func (g *gen) run() {
 	g.runAfterBodiless()
 	g.runInterim()
 	g.runGzipHeaders()
+	// T. untouched is byte-identical under the charset auto-decoder
+	g.runCharsetUntouched()
 	g.flushSeq(len(g.seqCases))
 }
